@@ -149,6 +149,8 @@ def _worker(modname, tier, seed, widx, examples, seconds, outpath):
                   phases=[Phase.generate, Phase.shrink], verbosity=Verbosity.quiet)
         @given(mod.strategy(tier))
         def t(case):
+            from . import runner as _runner
+            _runner.new_case()
             k = case_hash(case)
             now = time.time()
             if state["first_fail"] is None:
@@ -182,6 +184,8 @@ def _worker(modname, tier, seed, widx, examples, seconds, outpath):
                     traceback.format_exception(type(e), e, e.__traceback__))[-3000:]}, "kind": "harness"})
         if state["last"] is not None:
             stats.violations.append(state["last"])
+        from . import runner as _runner
+        _runner.close_workdir()
         with open(outpath, "w") as fh:
             json.dump(stats.to_json(), fh)
     except BaseException as e:
@@ -204,14 +208,30 @@ def write_replay(pid, v, tag=None):
     return p
 
 
+def _runner_mod():
+    from . import runner as _runner
+    return _runner
+
+
 def replay_file(mod, path):
     with open(path) as fh:
         d = json.load(fh)
+    _runner_mod().new_case()
     return mod.check(d["case"]), d
 
 
 def run_check(mod, tier, seed, only_replay=None):
     """Returns process exit code."""
+    from . import runner as _runner
+    _runner.sweep_stale()
+    try:
+        return _run_check(mod, tier, seed, only_replay)
+    finally:
+        _runner.close_workdir()
+        _runner.sweep_stale()
+
+
+def _run_check(mod, tier, seed, only_replay=None):
     t0 = time.time()
     pid = mod.ID
     out_lines = []
@@ -309,6 +329,7 @@ def run_check(mod, tier, seed, only_replay=None):
         reps = 0
         last = None
         for _ in range(3):
+            _runner_mod().new_case()
             r = mod.check(v["case"])
             if r["status"] == "violation":
                 reps += 1
